@@ -45,6 +45,7 @@ def plans(tier):
 
 def run(ctx):
     opseq.run_bfs_check(ctx, TAGS, plans(ctx.tier))
+    opseq.run_explicit(ctx, TAGS, opseq.long_histories())
     ctx.cov["explanation"] = (
         "BFS over histories of completed writing sessions (root / new / "
         "reused / nested sub-directory filler, multi-writer call, refused "
